@@ -14,7 +14,8 @@ engine_of() {
   case $1 in
     C03|C04|C05|C06|C07|C09|C10|C19) echo seq ;;
     C11|C12|C13|C14|C15|C16) echo pure ;;
-    C01|C02|C08|C17|C18|C20) echo conc ;;
+    C01) echo conc_race ;;
+    C02|C08|C17|C18|C20) echo conc ;;
     *) echo none ;;
   esac
 }
